@@ -1,5 +1,5 @@
 """V dart_nanobind_disabled_use: the `Type::Opaque` / `Type::Struct` / `Type::Enum` arm bodies of Dart `gen_type_name` and nanobind `gen_type_name`
-(E15 ×6): naming a type whose definition is disabled for the backend pushes the "Found usage of disabled type" diagnostic.  Same contract as units
+(E15 ×9, incl. JS gen_js_type_str): naming a type whose definition is disabled for the backend pushes the "Found usage of disabled type" diagnostic.  Same contract as units
 c_ty_name / cpp_disabled_use / kotlin_disabled_use for the other backends."""
 import re
 from rsrc import Src, Piece, rule_format_msgs, match_close
@@ -9,7 +9,7 @@ import vhelp
 
 NAME = "dart_nanobind_disabled_use"
 ENGINE = "verus"
-PROPERTIES = {"C13": "a type disabled for the dart / nanobind backend and named in an enabled method or field is reported: opaque, struct and enum arms of their gen_type_name"}
+PROPERTIES = {"C13": "a type disabled for the dart / nanobind / js backend and named in an enabled method or field is reported: opaque, struct and enum arms of their gen_type_name"}
 DART = "tool/src/dart/mod.rs"
 NB = "tool/src/nanobind/ty.rs"
 
@@ -56,15 +56,21 @@ impl NameFormatter {
     #[verifier::external_body] pub fn fmt_impl_header_path(&self, id: TypeId) -> Path { unimplemented!() }
 }
 pub struct DartCx<'a> { pub formatter: &'a NameFormatter, pub tcx: &'a Tcx, pub errors: ErrorStore }
+pub mod super_gen { #[derive(Copy, Clone)] pub enum ImportUsage { Both } }
+pub struct JsCx<'a> { pub formatter: &'a NameFormatter, pub tcx: &'a Tcx, pub errors: ErrorStore }
+impl<'a> JsCx<'a> {
+    #[verifier::external_body] pub fn add_import(&mut self, t: Text, f: Option<u8>, u: super_gen::ImportUsage) ensures final(self).errors == old(self).errors, final(self).tcx == old(self).tcx { unimplemented!() }
+}
 pub struct NbFormatter<'a> { pub cxx: &'a NameFormatter }
 pub struct C2<'a> { pub tcx: &'a Tcx }
 pub struct NbCx<'a> { pub formatter: NbFormatter<'a>, pub c2: C2<'a>, pub errors: ErrorStore, pub binding: Binding }
 """
 
 ARMS = [("Opaque", "op", "OpaquePath", "TypeId { n: op.tcx_id.n }"), ("Struct", "st", "StructPath", "st.tcx_id"), ("Enum", "e", "EnumPath", "TypeId { n: e.tcx_id.n }")]
+JS_ARMS = [("Opaque", "op", "OpaquePath", "TypeId { n: op.tcx_id.n }"), ("Struct", "st", "StructPath", "st.tcx_id"), ("Enum", "enumerator", "EnumPath", "TypeId { n: enumerator.tcx_id.n }")]
 
 
-def arms_of(vf, rel, item_path, cx, tcx_expr, tag):
+def arms_of(vf, rel, item_path, cx, tcx_expr, tag, ARMS=ARMS):
     src = Src(rel)
     it = src.item(item_path, "fn")
     body = src.slice(it["start"], it["end"])
@@ -82,6 +88,7 @@ def arms_of(vf, rel, item_path, cx, tcx_expr, tag):
         p.fn("E6", rule_format_msgs, why="diagnostic text dropped")
         p.sub("E3", r"self\s*\.errors\s*\.push_error\(", "self.errors.push_error(", count=None, why="ErrorStore's interior mutability modelled as &mut (explicit count)")
         p.sub("E3", r"self\s*\.formatter\s*\.cxx\s*\.", "self.formatter.cxx.", count=None, why="method chain on one line")
+        p.sub("E12", r"super::gen::ImportUsage", "super_gen::ImportUsage", count=None, why="module path re-rooted")
         name = f"{tag}_name_{variant.lower()}"
         vf.add(f"// E15: body of the `Type::{variant}(ref {var})` arm of {tag} gen_type_name\n"
                f"fn {name}(&mut self, {var}: &{pty}) -> (r: Text)\n"
@@ -99,11 +106,12 @@ def build(tier):
     vf.add(PRELUDE)
     arms_of(vf, DART, "impl TyGenContext<'_,'cx>::gen_type_name", "DartCx", "tcx", "dart")
     arms_of(vf, NB, "impl TyGenContext<'ccx,'tcx>::gen_type_name", "NbCx", "c2.tcx", "nanobind")
+    arms_of(vf, "tool/src/js/converter.rs", "impl TyGenContext<'_,'tcx>::gen_js_type_str", "JsCx", "tcx", "js", ARMS=JS_ARMS)
     vf.add(vhelp.FOOTER)
     return vf
 
 
-CANARY_FUNCTIONS = ["dart_name_opaque", "dart_name_struct", "dart_name_enum", "nanobind_name_opaque", "nanobind_name_struct", "nanobind_name_enum"]
+CANARY_FUNCTIONS = ["dart_name_opaque", "dart_name_struct", "dart_name_enum", "nanobind_name_opaque", "nanobind_name_struct", "nanobind_name_enum", "js_name_opaque", "js_name_struct", "js_name_enum"]
 ASSUMPTIONS = [
     "E15: three arm bodies per backend; formatter / include collaborators abstract; tool::ErrorStore::push_error modelled as a counter on &mut self",
 ]
